@@ -1,6 +1,6 @@
 """C04 — network validation reports exactly the documented SR2025 rule violations."""
 from .common import Report, Finding
-from . import valid, grules, grammar as G
+from . import valid, grules, v4, grammar as G
 from .facts import walk, lit_val
 
 LEVEL = "other"
@@ -90,5 +90,7 @@ def run(F, tier):
     valid.v1(rep, F)
     valid.v2(rep, F)
     v5(rep, F, tms)
+    v4.v4(rep, F, tms)
+    v4.v4s(rep, F, tms)
     rep.sample({"rule_fn_counts": rep.rules.get("V1n", {}).get("counts")})
     return rep
